@@ -552,6 +552,52 @@ func (w *worker) explore(c seedCfg, full bool) {
 		f(q)
 		w.judge(fmt.Sprintf("neutral/parent-header-field-%d", i), q)
 	}
+	// 5b. wire-level index values around the signed/unsigned boundary, for both index fields,
+	// combined with the real (re-committed) and the all-zero parent merkle root and with the
+	// seed's coinbase, a changed coinbase and a coinbase committing to another block
+	wireIdx := []uint32{0x7fffffff, 0x80000000, 0xfffffffe, 0xffffffff}
+	cbVariants := []func(q *proof){
+		func(q *proof) {},
+		func(q *proof) { q.CbVersion += 7 },
+		func(q *proof) { q.Outs = append(q.Outs, txOut{Value: 5, Pk: []byte{0x52}}) },
+	}
+	for _, pi := range append([]uint32{seed.ParIndex}, wireIdx...) {
+		for _, ai := range append([]uint32{seed.AuxIndex}, wireIdx...) {
+			if pi == seed.ParIndex && ai == seed.AuxIndex {
+				continue
+			}
+			for ci, cbm := range cbVariants {
+				for _, root := range []string{"real", "zero", "kept"} {
+					q := seed.clone()
+					cbm(q)
+					q.ParIndex, q.AuxIndex = pi, ai
+					switch root {
+					case "real":
+						q.recommit()
+					case "zero":
+						q.HdrRoot = [32]byte{}
+					}
+					w.judge(fmt.Sprintf("wire-index/root-%s/coinbase-%d", root, ci), q)
+					// the same with the script carrying the aux root that belongs to this aux index
+					// (for index 0xffffffff on a signed decoder: the all-zero root)
+					q2 := q.clone()
+					want := q2.wantRoot()
+					q2.Ins[0].Script = append(append(append(append(append([]byte{}, prefixBytes[:c.Prefix]...), marker...), want[:]...), le32(uint32(1)<<uint(h))...), le32(c.Nonce)...)
+					if root == "real" {
+						q2.recommit()
+					}
+					w.judge(fmt.Sprintf("wire-index/root-%s/coinbase-%d/script-for-index", root, ci), q2)
+					var z [32]byte
+					q3 := q.clone()
+					q3.Ins[0].Script = append(append(append(append(append([]byte{}, prefixBytes[:c.Prefix]...), marker...), z[:]...), le32(uint32(1)<<uint(h))...), le32(c.Nonce)...)
+					if root == "real" {
+						q3.recommit()
+					}
+					w.judge(fmt.Sprintf("wire-index/root-%s/coinbase-%d/script-zero-root", root, ci), q3)
+				}
+			}
+		}
+	}
 	// 6. coinbase fields, without and with re-commitment by the parent header
 	cbMuts := []func(q *proof){
 		func(q *proof) { q.CbVersion++ }, func(q *proof) { q.Ins[0].PrevIdx ^= 1 }, func(q *proof) { q.Ins[0].Seq ^= 1 },
@@ -864,7 +910,7 @@ func main() {
 	r.Finish(evid.Coverage{
 		"evaluations":                total.evals + total.reuseCases,
 		"distinct_nontrivial":        nontrivial,
-		"rule":                       fmt.Sprintf("%d valid seeds (aux branch length 0..5 x nonces x chain ids x parent branch shapes x script prefix/suffix) built like GenerateAuxPow builds them; per seed: every bit of the block hash, chain id / aux index / parent index deviations, every byte of every branch element and of the parent merkle root x 16 xor values (on the heavy seeds: no script prefix, main chain id; x 2 values on the others), branch length changes, coinbase field changes with and without re-commitment, every script byte x 16 xor values with re-commitment, size and nonce alphabets, every truncation, two-marker / non-adjacent / marker-less / wrong-root layouts; on the placement seeds the commitment at every nibble offset 0..26 of the hex script in 3-4 tail layouts. Every proof is serialized and deserialized by the repository before AuxPow.Check. Object reuse: per seed, an AuxPow value is decoded and checked, then turned into each of ~18 other proofs (other block, switched script, changed coinbase with/without re-commitment, changed roots/branches) field by field in place or by Deserialize into the same value, in both orders, and checked again; the verdict must equal that of a fresh value decoded from its re-serialisation and the byte-level statement. Duplicates (same wire bytes, hash, chain id) are evaluated once. distinct_nontrivial = distinct proofs that pass the parent-merkle rule and so reach the marker/root/size/slot logic", len(cfgs)),
+		"rule":                       fmt.Sprintf("%d valid seeds (aux branch length 0..5 x nonces x chain ids x parent branch shapes x script prefix/suffix) built like GenerateAuxPow builds them; per seed: every bit of the block hash, chain id / aux index / parent index deviations, every byte of every branch element and of the parent merkle root x 16 xor values (on the heavy seeds: no script prefix, main chain id; x 2 values on the others), branch length changes, wire-level index values {0x7fffffff,0x80000000,0xfffffffe,0xffffffff} for both index fields x parent root {re-committed, all-zero, kept} x 3 coinbases x 3 scripts, coinbase field changes with and without re-commitment, every script byte x 16 xor values with re-commitment, size and nonce alphabets, every truncation, two-marker / non-adjacent / marker-less / wrong-root layouts; on the placement seeds the commitment at every nibble offset 0..26 of the hex script in 3-4 tail layouts. Every proof is serialized and deserialized by the repository before AuxPow.Check. Object reuse: per seed, an AuxPow value is decoded and checked, then turned into each of ~18 other proofs (other block, switched script, changed coinbase with/without re-commitment, changed roots/branches) field by field in place or by Deserialize into the same value, in both orders, and checked again; the verdict must equal that of a fresh value decoded from its re-serialisation and the byte-level statement. Duplicates (same wire bytes, hash, chain id) are evaluated once. distinct_nontrivial = distinct proofs that pass the parent-merkle rule and so reach the marker/root/size/slot logic", len(cfgs)),
 		"exhaustive":                 true,
 		"seeds":                      len(cfgs),
 		"accepted":                   total.accepted,
